@@ -1,4 +1,16 @@
-// ---- specs/linear.rs : the value computed by Linear::calc_frac, as a term over the rounding operators
+// ---- specs/linear.rs : what Linear::calc_frac computes
+/// the exact operation sequence, as a term over the rounding operators (needed only where
+/// the claim must be sound for floats: the index guess of C11)
 pub open spec fn cf(x1: T, y1: T, x2: T, y2: T, x: T) -> T {
     t_add(t_mul(t_div(t_sub(y2, y1), t_sub(x2, x1)), t_sub(x, x1)), y1)
+}
+pub open spec fn deps5(a: T, b: T, c: T, d: T, e: T) -> Set<Cell> {
+    a.deps@.union(b.deps@).union(c.deps@).union(d.deps@).union(e.deps@)
+}
+/// value-level contract (machine arithmetic treated as mathematical): r is the straight line
+/// through (x1,y1),(x2,y2) at x; it depends on nothing but its five operands; finite in, finite out
+pub open spec fn lin_ok(r: T, x1: T, y1: T, x2: T, y2: T, x: T) -> bool {
+    &&& x1@ != x2@ ==> r@ == line(x1@, y1@, x2@, y2@, x@)
+    &&& r.deps@.subset_of(deps5(x1, y1, x2, y2, x))
+    &&& (is_fin(x1) && is_fin(y1) && is_fin(x2) && is_fin(y2) && is_fin(x) && x1@ != x2@) ==> is_fin(r)
 }
